@@ -4,7 +4,14 @@ Streams
   match      helpers.match vs Model.Match.pmatch  (exhaustive small strings + random unicode)
   filter     completion.filter_names + the sort of Completion.complete driven with synthetic
              Name objects vs Model.Completion.completePython
-  e2e        Script.complete on generated programs: the candidate names jedi collected are
+  foldsrc    the same on names that collide under a case mapping (straße/strasse, İlk/i̇lk, ...) vs
+             Model.Completion.completePythonSrc: folding methods + position of the length measurement
+             as the translator read them from filter_names
+  foldmap    Model.Completion.expand/unitOn (code-point-wise case mapping) vs str.lower/casefold/upper;
+             str.lower is unit-width on every code point but U+0130 (checked over all code points)
+  e2e        Script.complete on generated programs (ASCII programs + programs whose scopes hold
+             families of identifiers that collide under lower/casefold/upper, fragments stopping
+             around the special code point): the candidate names jedi collected are
              captured (wrapper around completion.filter_names), the model is run on them and
              must reproduce the API-visible list (name, complete, name_with_symbols, prefix length)
   oracle     the property itself evaluated on Script.complete output (fragment recomputed from
@@ -23,10 +30,15 @@ MANIFEST = dict(
          'classes.Completion: fuzzy<->subsequence, start<->prefix, every completion matches the (case-folded) '
          'fragment, complete is the missing suffix, prefix length = fragment length, first prefix_length characters '
          'equal the fragment up to case (under CharwiseLower, with a kernel-checked counter-witness for the '
-         'unrestricted statement), no duplicate (name, complete), nothing matching is lost, sortedness, and '
+         'unrestricted statement; and for any code-point-wise mapping that may expand a code point - casefold: '
+         'prefix_is_fragment_unit_partial / accepted_text_spells_name_partial under "no expanding code point in '
+         'the fragment and in the first |fragment| characters of the name", both hypotheses forced by kernel-checked '
+         'witnesses straß/strasse, stras/straße; source_fold_shape: the translator-read folding statements of '
+         'filter_names are lower/lower/length-first, source_filter_is_filterNames), no duplicate (name, complete), nothing matching is lost, sortedness, and '
          '"the key tuple found in the source orders exactly as documented" stated over the translator-extracted '
          'component list. Tie: translator + correspondence (unit level exhaustive on small strings, synthetic-name '
-         'stream, end-to-end stream on the candidates jedi collected). Attribute completeness: theorem '
+         'stream, foldsrc/foldmap streams on names colliding under a case mapping, end-to-end stream on the candidates '
+         'jedi collected, incl. programs with such identifier families). Attribute completeness: theorem '
          'attrs_complete_partial over the PyCore fragment (every attribute the run can read from an instance/class is '
          'among complNames, the transcription of the filters complete_trailer uses; tie: jedi completions after `obj.` = '
          'complNames on generated PyCore programs); beyond the fragment (multiple inheritance) it is decided by '
@@ -172,6 +184,79 @@ def stream_filter(ctx, reqs):
                'ci': ci, 'bracket': bracket, 'lower': lower_table(strings)}
         reqs.append(req)
         cases.append((('filter', req), impl))
+    return cases
+
+
+# ----------------------------------------------------------------- streams: foldsrc, foldmap
+
+FOLD_POOL = ['straße', 'strasse', 'STRASSE', 'Straße', 'maß', 'mass', 'masse', 'Maß', 'İlk', 'i\u0307lk', 'ilk',
+             'ılk', 'ŉa', 'ʼna', 'ǰa', 'j\u030ca', 'ﬁn', 'fin', 'λος', 'λοσ', 'ΛΟΣ', 'ǆa', 'ǅa', 'Ǆa', 'stra', '_straße',
+             '__strasse', 'ẞa', 'ssa']
+
+
+def fold_tables(strings):
+    strings = sorted(set(strings))
+    return {m: [[x, getattr(x, m)()] for x in strings] for m in ('lower', 'casefold', 'upper')}
+
+
+def stream_foldsrc(ctx, reqs):
+    """filter_names + sort on names that collide under a case mapping, vs Model.Completion.
+    completePythonSrc (folding methods and statement order as the translator read them)"""
+    rng = ctx.subrng('foldsrc')
+    cases = []
+    for i in range(ctx.size(600, 12000)):
+        names = []
+        for _ in range(rng.randint(1, 6)):
+            x = rng.choice(FOLD_POOL)
+            pub = x + '=' if rng.random() < 0.15 else x
+            names.append(FakeName(x, pub, api_type=rng.choice(['function', 'statement']),
+                                  is_del=rng.random() < 0.05))
+        base = rng.choice(FOLD_POOL)
+        like = base[:rng.randint(0, len(base))]
+        r = rng.random()
+        like = like.upper() if r < 0.15 else like.casefold() if r < 0.3 else like.swapcase() if r < 0.4 else like
+        fuzzy = rng.random() < 0.3
+        imported = [rng.choice(FOLD_POOL)] if rng.random() < 0.2 else []
+        ci = rng.random() < 0.9
+        bracket = rng.random() < 0.2
+        try:
+            impl = run_filter_impl(names, like, fuzzy, imported, ci, bracket)
+        except Exception as e:
+            impl = ['EXC', type(e).__name__]
+        cands = [{'str': nm.string_name, 'pub': nm._public, 'func': nm.api_type == 'function',
+                  'del': bool(nm.tree_name and nm.tree_name._d)} for nm in names]
+        strings = [like] + [nm.string_name for nm in names] + [nm._public for nm in names]
+        req = {'op': 'complete_src', 'cands': cands, 'like': like, 'fuzzy': fuzzy, 'imported': imported,
+               'ci': ci, 'bracket': bracket}
+        req.update(fold_tables(strings))
+        reqs.append(req)
+        cases.append((('foldsrc', req), impl))
+    return cases
+
+
+def stream_foldmap(ctx, reqs):
+    """Model.Completion.expand / unitOn (a case mapping applied code point by code point) vs the real
+    str.lower / str.casefold / str.upper. Capital sigma is left out for lower(): its lower-casing
+    depends on the position in the word."""
+    rng = ctx.subrng('foldmap')
+    alphabet = list('aAzZsS_ßẞİıiI\u0307ŉǰﬁǆǅǄéÉσςΣ')
+    cases = []
+    for i in range(ctx.size(400, 6000)):
+        m = rng.choice(['lower', 'casefold', 'upper'])
+        x = ''.join(rng.choice(alphabet) for _ in range(rng.randint(0, 7)))
+        if m == 'lower':
+            x = x.replace('Σ', 'σ')
+        table = [[ch, getattr(ch, m)()] for ch in sorted(set(x))]
+        impl = {'out': getattr(x, m)(), 'unit': len(getattr(x, m)()) == len(x) and all(len(getattr(ch, m)()) == 1 for ch in x)}
+        reqs.append({'op': 'expand', 'table': table, 's': x})
+        cases.append((('foldmap', m, x), impl))
+    # the fact about CPython that source_fold_shape rests on: str.lower maps every code point but
+    # U+0130 to one code point (casefold and upper do not)
+    wide = [hex(c) for c in range(0x110000) if len(chr(c).lower()) != 1]
+    ctx.count('foldmap', ('lower-unit-width',), nontrivial=True, bucket='all code points',
+              sample={'code points whose lower() is not one code point': wide})
+    if wide != ['0x130']:
+        ctx.tie_broken('assumption:str.lower-unit-width', 'code points whose lower() is longer: %r' % wide[:20])
     return cases
 
 
@@ -855,12 +940,23 @@ def compare(ctx, cases, answers):
                     ctx.fail('match', 'helpers.match disagrees with prefix/subsequence semantics',
                              {'string': s, 'like_name': like, 'fuzzy': fuzzy}, expected=truth,
                              observed=impl, how='jedi.api.helpers.match(string, like_name, fuzzy=fuzzy)')
+        elif stream == 'foldmap':
+            ctx.count('foldmap', key, nontrivial=len(key[2]) > 0, bucket=key[1] + ('' if impl['unit'] else '/expanding'),
+                      sample={'method': key[1], 's': key[2], 'result': impl})
+            if ans != impl:
+                ctx.tie_broken('correspondence:foldmap', short({'case': key, 'impl': impl, 'model': ans}))
         else:
             req = key[-1]
             if isinstance(ans, dict):
                 raise common.InfraError('driver error: %r' % ans)
             model = [model_tuple(m) for m in ans]
-            if stream == 'filter':
+            if stream == 'foldsrc':
+                ctx.count('foldsrc', req, nontrivial=len(model) > 0,
+                          bucket='n=%d%s' % (min(len(model), 4), '/fuzzy' if req['fuzzy'] else ''),
+                          sample={'cands': req['cands'], 'like': req['like'], 'fuzzy': req['fuzzy'],
+                                  'result': impl})
+                visible = impl
+            elif stream == 'filter':
                 ctx.count('filter', req, nontrivial=len(model) > 0,
                           bucket='n=%d%s' % (min(len(model), 4), '/fuzzy' if req['fuzzy'] else ''),
                           sample={'cands': req['cands'], 'like': req['like'], 'fuzzy': req['fuzzy'],
@@ -874,13 +970,13 @@ def compare(ctx, cases, answers):
             if model != visible:
                 ctx.tie_broken('correspondence:' + stream,
                                short({'case': key[1], 'impl': visible[:6], 'model': model[:6]}, 1200))
-                if stream == 'filter':
+                if stream in ('filter', 'foldsrc'):
                     # search: evaluate the property predicates directly on the real output
                     like, fuzzy = req['like'], req['fuzzy']
                     seen = set()
                     for t in impl:
                         if t[0] == 'EXC' or not isinstance(t, list):
-                            ctx.fail('filter', 'filter_names raised', req, observed=impl)
+                            ctx.fail(stream, 'filter_names raised', req, observed=impl)
                             break
                         name, complete, nws, plen = t
                         bad = None
@@ -899,11 +995,11 @@ def compare(ctx, cases, answers):
                         if fuzzy and complete is not None:
                             bad = 'fuzzy completion has complete != None'
                         if bad:
-                            ctx.fail('filter', bad, req, observed=t,
+                            ctx.fail(stream, bad, req, observed=t,
                                      how='completion.filter_names(None, names, None, like, fuzzy, imported, cached_name=None)')
                     keys = [doc_key(t[0], like) for t in impl if isinstance(t, list) and len(t) == 4]
                     if keys != sorted(keys):
-                        ctx.fail('filter', 'completions not in documented order', req, observed=impl)
+                        ctx.fail(stream, 'completions not in documented order', req, observed=impl)
 
 
 def run(ctx):
@@ -911,6 +1007,8 @@ def run(ctx):
     cases = []
     cases += stream_match(ctx, reqs)
     cases += stream_filter(ctx, reqs)
+    cases += stream_foldsrc(ctx, reqs)
+    cases += stream_foldmap(ctx, reqs)
     cases += stream_e2e(ctx, reqs)
     stream_known(ctx)
     stream_hierarchy(ctx)
@@ -921,7 +1019,8 @@ def run(ctx):
     else:
         ctx.notes.append('model did not build: correspondence skipped, oracle only')
     ctx.obligations['assumptions'] = [
-        "CPython str.lower enters the model as the parameter `lower` (a lookup table sent with each request)",
+        "CPython str.lower / casefold / upper enter the model as parameters (lookup tables sent with each request); "
+        "that str.lower maps every code point except U+0130 to one code point is checked over all code points (stream foldmap), not proved",
         'candidate collection (Completion._complete_python: which names are visible at the cursor) is not '
         'modelled; the model is run on the candidates jedi collected. Attribute completeness is checked by '
         'executing generated programs (stream attrs) - a test, not a theorem.',
